@@ -358,9 +358,10 @@ def behavioural_weighted(ctx, sub, quick):
 
 
 def skew_cases(seed, quick):
-    for k, L in enumerate((3000, 30000) if quick else (3000, 30000, 100000)):
-        yield {'leaves': L, 'seed': seed * 31 + k, 'sim': 'Gillespie_SIR'}
-        yield {'leaves': L, 'seed': seed * 37 + k, 'sim': 'Gillespie_SIS'}
+    for k, L in enumerate((3000, 30000, 100000) if quick else (3000, 30000, 100000, 300000)):
+        for rep in range(2):
+            yield {'leaves': L, 'seed': seed * 31 + 7 * k + rep, 'sim': 'Gillespie_SIR'}
+            yield {'leaves': L, 'seed': seed * 37 + 7 * k + rep, 'sim': 'Gillespie_SIS'}
 
 
 def prop_skew(case):
